@@ -168,6 +168,11 @@ def stmt(self, s: ast.stmt, st: State) -> Optional[State]:
                         del o.kv[cval(idx)]
                     elif o.kind == "list" and o.exact and is_const(idx) and isinstance(cval(idx), int) and -len(o.items) <= cval(idx) < len(o.items):
                         del o.items[cval(idx)]
+                    elif o.kind in ("list", "bytearray") and idx.op == "sliceobj" and all(x is NONE or is_const(x) for x in idx.args[:3]) and (o.exact or all(x is NONE for x in idx.args[:3])):
+                        if all(x is NONE for x in idx.args[:3]):
+                            o.items, o.exact = [], True  # del x[:] empties the list whatever it held
+                        else:
+                            del o.items[slice(*[None if x is NONE else cval(x) for x in idx.args[:3]])]
                     else:
                         _weaken(o)
                         if o.kind == "dict" and o.sure is not None:
